@@ -433,6 +433,72 @@ impl<A: All2All> Votor<A> {
     }
 }
 
+/// Verification hook: plain-data view of one slot's voting state.
+#[cfg(feature = "verif-hooks")]
+#[derive(Clone, Debug, PartialEq, Eq)]
+pub struct VerifVotorSlot {
+    pub slot: Slot,
+    pub voted: bool,
+    pub voted_notar: Option<BlockHash>,
+    pub bad_window: bool,
+    pub block_notarized: Option<BlockHash>,
+    pub parents_ready: Vec<BlockId>,
+    pub received_shred: bool,
+    pub pending_block: Option<(BlockHash, BlockId)>,
+    pub retired: bool,
+}
+
+/// Verification hooks: single-step the private handlers and view the state,
+/// so the conformance harness can drive a [`Votor`] without the `select!` loop.
+#[cfg(feature = "verif-hooks")]
+impl<A: All2All> Votor<A> {
+    /// Runs the handler for one pool event.
+    pub async fn verif_pool_event(&mut self, event: PoolEvent) {
+        self.handle_pool_event(event).await;
+    }
+
+    /// Runs the handler for one blockstore event.
+    pub async fn verif_blockstore_event(&mut self, event: BlockstoreEvent) {
+        self.handle_blockstore_event(event).await;
+    }
+
+    /// Runs the handler for one timeout event.
+    pub async fn verif_timeout(&mut self, slot: Slot, crashed_leader: bool) {
+        let event = if crashed_leader {
+            VotorTimeout::TimeoutCrashedLeader(slot)
+        } else {
+            VotorTimeout::Timeout(slot)
+        };
+        self.handle_timeout_event(event).await;
+    }
+
+    /// Highest slot for which a (fast-)finalization certificate was seen.
+    pub fn verif_highest_final_cert_slot(&self) -> Slot {
+        self.highest_final_cert_slot
+    }
+
+    /// Per-slot state of all retained slots.
+    pub fn verif_slots(&self) -> Vec<VerifVotorSlot> {
+        self.slots
+            .iter()
+            .map(|(slot, s)| VerifVotorSlot {
+                slot: *slot,
+                voted: s.voted,
+                voted_notar: s.voted_notar.clone(),
+                bad_window: s.bad_window,
+                block_notarized: s.block_notarized.clone(),
+                parents_ready: s.parents_ready.iter().cloned().collect(),
+                received_shred: s.received_shred,
+                pending_block: s
+                    .pending_block
+                    .as_ref()
+                    .map(|b| (b.hash.clone(), b.parent.clone())),
+                retired: s.retired,
+            })
+            .collect()
+    }
+}
+
 /// Internal timeout events generated by [`Votor`] itself.
 #[derive(Debug)]
 enum VotorTimeout {
